@@ -650,6 +650,13 @@ class InterpBase:
                     return o[i.a[0] - pos]
                 pos += len(o)
         if base.k == "bcat" and i.k == "const":
+            if self.concrete_bytes:
+                # a copy of (part of) the entry buffer: a structure-determining octet keeps its concrete value
+                from .bits import buffer_pos
+                from .linear import linearize
+                p = buffer_pos(base, linearize(i))
+                if p is not None and p[1].is_const() and p[1].c >= 0 and p[0].k == "sym" and (p[0].a[0], p[1].c) in self.concrete_bytes:
+                    return C(self.concrete_bytes[(p[0].a[0], p[1].c)])
             return T("idx", base, i, ty="int")
         ety = base.ty[1] if isinstance(base.ty, tuple) and base.ty[0] == "list" else None
         if isinstance(base.ty, tuple) and base.ty[0] == "tuple" and base.ty[1] and i.k == "const" \
